@@ -187,6 +187,9 @@ bool FileHDF5::deleteSection(const std::string &name_or_id) {
             section.deleteSection(child.id());
         }
         // if hasSection is true then section_group always exists
+        // the victim's own section link goes with it; removed first, because a section linked to itself
+        // would otherwise keep itself alive after it was unlinked (handles stay valid, the group stays in the file)
+        section.link(nix::none);
         deleted = metadata.removeAllLinks(section.name());
     }
 
